@@ -187,7 +187,7 @@ DEFAULT_PROFILE = dict(
     dip_spellings=True, result_dip=False, keyword_params=True, nested_structs=True,
     max_params=5, cb_struct_args=True, opt_slices=True, char=False, ordering=True,
     mut_self=True, opt_mut_oref=True, namespaces=False, byte_slices=True, renames=False,
-    strs_utf8=False, result_prim_err=True, opt_owned=False,
+    strs_utf8=False, result_prim_err=True, opt_owned=False, write_prob=0.18,
 )
 
 
@@ -465,7 +465,9 @@ class Gen:
         if needs_a and not lifetimes:
             lifetimes = ["a"]
         # trailing write
-        if p["write"] and self.chance(0.18 if ret[0] != "opt" else 0.5) and ret[0] in ("unit", "result", "opt") and (ret[0] == "unit" or ret[1] == ("unit",)):
+        if p["write"] and p["write_prob"] > 0.5 and ret[0] not in ("unit", "result", "opt"):
+            ret = self.pick([("unit",), ("unit",), ("result", ("unit",), self.simple_ret_payload(allow_unit=True), "std"), ("opt", ("unit",), "std")])
+        if p["write"] and self.chance(p["write_prob"] if ret[0] != "opt" else max(0.5, p["write_prob"])) and ret[0] in ("unit", "result", "opt") and (ret[0] == "unit" or ret[1] == ("unit",)):
             params.append(("w", ("write",)))
         m = Method("m%d" % idx, sk, params, ret, lifetimes=lifetimes)
         m.owner = owner
